@@ -62,8 +62,9 @@ CLAIMS = {
              'argumentsConversionCost is the sum of the per-argument costs with arity check (loop invariant, ghost fold), and the selection loop of findMethod returns the unique minimum-cost candidate and nothing on a tie (ghost cursor). '
              'Compile time (unit SEMK): conversionCost follows the same table, so both sides rank candidates identically on matching static/dynamic types (written lemma over the two contracts). '
              '(b) destructor order (unit OBJM): the destructor walk of destroyObject visits the whole chain obj->cls, base, ... (class table of up to 8 classes, acyclic), enters the destructor of every class that declares one exactly once, executes its first statement, '
-             'derived class before base class (two ghost chain positions), each in its own class context with `this` bound to the object and stamped with that class, one scope deep, and restores context and scope depth (two nested loop contracts).',
-        note=TB + 'exec / beginScope / endScope / the `this` binding are models with bodies that only record ghost events. NOT covered: construction order (base constructor, field initialisers, body), vtable building and virtual dispatch, super calls, static fields, generics, WHEN destroyObject is called '
+             'derived class before base class (two ghost chain positions), each in its own class context with `this` bound to the object and stamped with that class, one scope deep, and restores context and scope depth (two nested loop contracts). '
+             '(c) dispatch: in the member-call branch of eval, obj.m(...) runs the vtable entry of the receiver\'s DYNAMIC class for the signature found through the static class when that method is virtual, the statically found method otherwise, and super.m(...) runs the method found in the base of the static class (region member_dispatch; class / method / vtable lookups uninterpreted).',
+        note=TB + 'exec / beginScope / endScope / the `this` binding are models with bodies that only record ghost events. NOT covered: construction order (base constructor, field initialisers, body), vtable BUILDING (what the table holds), findMethod\'s candidate collection, static fields, generics, WHEN destroyObject is called '
              '(reference counting / cycle collector; observed: a constructor ending in `return this;` leaves a hidden reference in m_returnValue, so `destroy` of that object never runs its destructor), the candidate '
              'collection loops, and the stamping of a reference with its DECLARED class at declaration / parameter binding - observed defect: `A a = new Sub(); k.g(a)` runs g(Sub) although the analyser resolved g(A) (native oracle, label site.binding.*).',
         ref='DESIGN.md §4 C08'),
@@ -71,15 +72,17 @@ CLAIMS = {
         text='Kernel only, with ghost state: (a) the scope-stack walk of RuntimeEvaluator::lookup and ::assign is proved to find / write the innermost binding of the name and to leave every other entry untouched (ghost scope and entry index, loop '
              'invariants); the property clause itself - the binding used never lies below the frame base of the current call (ghost g_fb) - is an obligation that FAILS on this code base and is reported as two KNOWN-FINDINGs (dynamic scoping of lookup / of assign) '
              'with a replay on the real interpreter; any other failing obligation is still a VIOLATION. (b) frame set-up: the parameter-binding loops of call, callMethod and runConstructorChain are proved to bind every parameter in the NEW top scope (observed at an arbitrary name), '
-             'to bind nothing but parameter names, and to leave every entry of every caller scope untouched (loop invariants; beginScope is checked to be the one-line push it is modelled as).',
+             'to bind nothing but parameter names, and to leave every entry of every caller scope untouched (loop invariants; beginScope is checked to be the one-line push it is modelled as). '
+             '(c) the BlockStatement branch of exec opens exactly one scope and closes it on every path, also when a nested statement returns (region exec_block, unit OBJM); endScope pops exactly one scope (unit TRK).',
         note=TB + 'The frame base is a ghost parameter equal to the index of the scope pushed by beginScope(). NOT covered: the part of lookup/assign after the walk (fields, statics, class names), that the callee body (exec) stays inside its frame - it does not, see the two findings - '
              'the binding of `this`, the analyser\'s resolution order, and the renaming corollary (a written argument over these contracts).',
         ref='DESIGN.md §4 C09'),
     'C10': dict(
         text='Kernel only (function half): proof that after the pre-declaration loop of SemanticAnalyser::analyse every top-level function (ghost index) is declared AND has its signature on record - parameter count and return type - '
-             'or the loop stopped with one Semantic error for a duplicate name; loop invariants on the outer loop and the parameter loop. With every signature on record before any body is analysed, no later check can depend on where a declaration stands.',
-        note=TB + 'The analyser tables are ghost state observed at one arbitrary name; typeFromAst is uninterpreted. NOT covered: that the call-site checks read only that table; the class half of the property (a derived class declared before its base '
-             'gets an empty copied layout in buildClassTable - a confirmed defect, design_probes/repro/C10_derived_declared_before_base.bloch - lives in unordered_map / shared_ptr code outside the lowering); module merge order.',
+             'or the loop stopped with one Semantic error for a duplicate name; loop invariants on the outer loop and the parameter loop. With every signature on record before any body is analysed, no later check can depend on where a declaration stands. '
+             'Class half, kernel (unit TFA): SemanticAnalyser::typeFromAst as a whole function - while the class registry is being built (when the class table holds only EARLIER declarations) the type of a member / parameter / return type is computed from its syntax alone: the class table is never consulted and nothing is rejected on its account (ghost call counters; loop contracts over type parameters and type arguments; the recursive calls use the same contract as induction hypothesis).',
+        note=TB + 'The analyser tables are ghost state observed at one arbitrary name; typeFromAst is uninterpreted. NOT covered: that the call-site checks read only that table; the rest of the class half (a derived class declared before its base '
+             'gets an empty copied layout in the RUN-TIME buildClassTable - a confirmed defect, design_probes/repro/C10_derived_declared_before_base.bloch - lives in unordered_map / shared_ptr code outside the lowering); module merge order.',
         ref='DESIGN.md §4 C10'),
     'C12': dict(
         text='Kernel only: (a) every lowered unit (SIM, LEX, UPD, QBK, ARITH, PTAB) carries CBMC bounds / pointer / division / shift obligations on every harness: for any input satisfying the stated invariants those functions never index out of range; '
@@ -113,10 +116,10 @@ CLAIMS = {
              'not as a full classification of every skipped byte.',
         ref='DESIGN.md §4 C15'),
     'C16': dict(
-        text='Kernel plus five rule sites: full-domain proof (every ValueType pair, every Visibility, arbitrary class hierarchy as an uninterpreted relation) of the analyser\'s compatibility kernel against the relation the property states: '
+        text='Kernel plus six rule sites: full-domain proof (every ValueType pair, every Visibility, arbitrary class hierarchy as an uninterpreted relation) of the analyser\'s compatibility kernel against the relation the property states: '
              'matchesPrimitive, numericPromotion, isAccessible (public always; private owner only; protected owner or subclass), isAssignableType and conversionCost (accept => same primitive / widening / same class or subclass / '
              'null only for class references / same array type; a class or array value never converts to a primitive), the accept/reject decision of the initialiser site (validateTypedInitializer region); and, as whole functions, the visitors of four syntactic sites - '
-             'return statement, assignment statement, assignment expression, member assignment - and the argument check of call expressions (checkArgs), each proved to accept a value only if it has the declared type (local variable, bare field, object.field, function result), to reject assignments to final variables at the node position, '
+             'return statement, assignment statement, assignment expression, member assignment, postfix ++/-- (never on final variables or final fields, only on int / long) - and the argument check of call expressions (checkArgs), each proved to accept a value only if it has the declared type (local variable, bare field, object.field, function result), to reject assignments to final variables at the node position, '
              'to reject a value in a void function and a bare return in a non-void one, to route every field write through the final-field rule, to refuse inaccessible fields, instance fields via a type name and final fields except through this inside a constructor; '
              'resolveField (accessibility, static context) and recordFinalFieldAssignment (own constructor, top level, exactly once - map observed at a ghost key).',
         note=TB + 'Generic type-parameter paths are excluded by precondition; class names are interned identities; typeEquals / isSubclassOf / inheritanceDistance / inferTypeInfo / getVariableType / findFieldInHierarchy / accept are contract-only stubs or one-record models (the type of an expression and the class tables are uninterpreted). NOT covered: that each rule is invoked in every syntactic position '
@@ -126,19 +129,20 @@ CLAIMS = {
         text='Proof of the recording and reporting kernel: (unit TRK) RuntimeEvaluator::endScope and ::recordTrackedValue as whole functions - every @tracked qubit / qubit[] entry of the closing scope (arbitrary iteration order, ghost entry index) and every recorded field value contributes exactly one outcome, '
              'nothing else contributes, the key is "qubit <name>" / "qubit[] <name>" (or the given name), the outcome is "1"/"0" of the last measurement or "?" for a single qubit and, for an array, the bit string of the last measurement of each element in index order, '
              '"?" exactly if some element is unmeasured or out of range (witness index), exactly one scope is popped (three nested loop contracts); (unit CLI, regions of runImpl) @shots(N) takes precedence over --shots=N, a run without either is a single run, '
-             'echo is shown for --echo=all always, for --echo=none never, in auto mode (named or default) exactly for a single shot, and the probability column is count / the sum of that variable\'s counts (loop contracts; total as an exact integer fold).',
+             'echo is shown for --echo=all always, for --echo=none never, in auto mode (named or default) exactly for a single shot, the per-shot table is ADDED into the aggregate (observed at an arbitrary (variable, outcome) cell; two nested loop contracts with partial sums), and the probability column is count / the sum of that variable\'s counts (loop contracts; total as an exact integer fold).',
         note=TB + 'Strings are (literal id, interned name, <= 8 built characters); qubit arrays have <= 8 elements, scopes <= 8 entries, tables <= 8 outcomes (object-size bounds). Double division is an uninterpreted function, so "probabilities lie in [0,1] and sum to 1" is the written real-arithmetic consequence of count / total, checked numerically only by the native oracle. '
-             'For --echo=none the property text ("exactly when --echo=all or a single shot is run") is read with the documented meaning of none (never). NOT covered: that every scope exit calls endScope and every owner destruction calls recordTrackedValue, the accumulation of per-shot tables into the aggregate (nested unordered_map iteration), '
-             'the shot loop itself, sorting and formatting of the table, @shots extraction in the module loader.',
+             'For --echo=none the property text ("exactly when --echo=all or a single shot is run") is read with the documented meaning of none (never). NOT covered: that every scope exit calls endScope and every owner destruction calls recordTrackedValue, '
+             'the shot loop itself (one fresh evaluator per shot), sorting and formatting of the table, @shots extraction in the module loader.',
         ref='DESIGN.md §4 C17'),
     'C20': dict(
         text='Proof of the updater decision logic: parseSemVer (unbounded string length up to 64 bytes, loop contracts on both loops) never raises, is valid only if the first component is a number, '
              'and each component is the std::stoi value of a maximal digit run in order; compareSemVer equals the sign of the numeric lexicographic order over all 2^192 pairs (lemmas: antisymmetric, transitive, '
              'invalid compares equal); hasLatest is true iff both parse and current >= latest; the gate of performSelfUpdate reaches the download only if both versions parse and the release is strictly newer; '
              'maybePrintNotice prints iff due, only after 72 h, only for a parsable strictly newer release, and stamps the window (lemma: never two notices within one window); checkForUpdatesIfDue does '
-             'nothing (no output, fetch, load or save) when BLOCH_NO_UPDATE_CHECK / CI / BLOCH_OFFLINE is set and prints at most one notice.',
+             'nothing (no output, fetch, load or save) when BLOCH_NO_UPDATE_CHECK / CI / BLOCH_OFFLINE is set, prints at most one notice and, when it prints one, saves the cache stamped with this run\'s time (what makes the 72 h throttle hold across invocations). '
+             'BOUNDED stand-in (never counted as proved): parseChecksum against an independent specification (first field of the first line whose file-name field equals the asset name exactly) for every checksums.txt of at most 8 bytes and asset names of 1..2 bytes.',
         note=TB + 'I/O (cache load/save, release fetch, stdin prompt, clock) are contract-only stubs (assumed); determinism of parseSemVer at call sites is an assumed clause justified by its proved frame; '
-             'std::stoi is modelled (<= 9 digits always fits). NOT covered: parseChecksum (istringstream/getline scanning is outside the lowering; a substring-match defect there is visible only to the native oracle), '
+             'std::stoi is modelled (<= 9 digits always fits). parseChecksum scans with istringstream / getline / operator>>: its library models have loops without contracts, so it is checked bounded only (stated bound above). NOT covered: '
              'persistence of the cache between processes, download/extract/replace steps.',
         ref='DESIGN.md §4 C20'),
 }
